@@ -36,6 +36,9 @@ TARGETS = {
     "detector/src/padwing.rs#rest": (["C01", "C03", "C04", "C05", "C08"], [(40, 559), (681, 1319), (1601, 2040)]),
     "detector/src/trigger.rs#rest": (["C01", "C06"], [(90, 461), (613, 900)]),
     "detector/src/chronobox.rs#rest": (["C01", "C07", "C08", "C20"], [(200, 340)]),
+    "detector/src/alpha16/aw_map.rs#rest2": (["C01", "C08", "C09", "C10"], [(1, 99), (196, 400)]),
+    "detector/src/padwing/map.rs#rest2": (["C01", "C08", "C09", "C10"], [(1, 99), (131, 179), (201, 379), (393, 559), (641, 900)]),
+    "physics/src/lib.rs#rest2": (["C09", "C10", "C11", "C18"], [(1, 115), (141, 239), (381, 470)]),
     "physics/src/matching.rs": (["C08", "C09", "C10"], [(1, 130)]),
     "physics/src/calibration/pads/gain.rs": (["C08", "C10"], [(1, 80)]),
     "physics/src/calibration/pads/baseline.rs": (["C08", "C10"], [(1, 80)]),
@@ -62,6 +65,8 @@ def mutants_of_line(line):
     code = line.split("//")[0]
     if not code.strip() or code.strip().startswith(("#", "///", "use ", "pub use", "mod ")):
         return out
+    if "--no-table-rows" in sys.argv and re.match(r"^\s*[\(\[]\s*[\"\[\d]", code):
+        return out      # literal table rows: entries can only be checked for internal consistency
     # payload fields of error values are not part of any property (only accept / reject / decoded fields are)
     if re.match(r"^\s*(found|expected|min_expected|max_expected|min|max|limit|header|footer|value|input|position|run_number|board_id|bank_name)\s*:", code) \
             or re.match(r"^\s*(found|expected|min_expected|max_expected)\b", code.strip()):
